@@ -15,10 +15,6 @@ open PdfVerif.BmpLemmas PdfVerif.ImageNameLemmas PdfVerif.InlineLemmas PdfVerif.
 
 /-! ## Exported bitmaps decode to the stored samples -/
 
-/-- Filters whose decoding is lossless (their decoders are C03's subject; here `data` is what
-    `stream.get_data()` returns). -/
-def Lossless (f : Flt) : Prop := f = .flate ∨ f = .lzw ∨ f = .a85 ∨ f = .ahx ∨ f = .rl
-
 /-- Colour space and bits per component of the three sample kinds; `inl` = written with the
     inline-image abbreviations `/G`, `/RGB`. -/
 def csOfKind (k : Kind) (inl : Bool) : CS :=
@@ -33,21 +29,6 @@ def bpcOfKind : Kind → Nat
 /-- The BMP format stores sizes in 32-bit fields: the theorem covers every image whose file fits. -/
 def FitsBmp (k : Kind) (w h : Nat) : Prop :=
   w < 2147483648 ∧ h < 2147483648 ∧ 54 + ncolsOfKind k * 4 + lineSize (bitsOfKind k) w * h < 4294967296
-
-theorem lossless_getLast (filters : List Flt) (hl : ∀ f ∈ filters, Lossless f) :
-    filters.getLast? ≠ some .dct ∧ filters.getLast? ≠ some .jpx ∧ filters.contains .jbig2 = false := by
-  refine ⟨?_, ?_, ?_⟩
-  · intro h
-    have := hl _ (List.mem_of_getLast? h)
-    rcases this with h | h | h | h | h <;> cases h
-  · intro h
-    have := hl _ (List.mem_of_getLast? h)
-    rcases this with h | h | h | h | h <;> cases h
-  · cases hc : filters.contains Flt.jbig2 with
-    | false => rfl
-    | true =>
-      have := hl _ (by simpa using hc)
-      rcases this with h | h | h | h | h <;> cases h
 
 /-- **bmp_rt.** For every gray-8, RGB-8 or 1-bit image of any width and height ≥ 1 (that fits the
     BMP format), stored unfiltered or through any lossless filter chain, as XObject or inline image,
